@@ -375,13 +375,14 @@ theorem dtc_W_solves {cov : Cov ℝ} {x : Mat ℝ n d} {xu : Mat ℝ m d} {y : M
   · rw [hpc] at hv; cases hv
 
 /-- **DTC with per-cell noise.**  For a per-cell sigma vector the propagated factor `W` (`m × n`, one column per cell) solves
-    the heteroscedastic inducing-point system of the weights (`C01.dtc_percell_weights_solve`) with the whitened unit factor
-    as right-hand side:
+    the heteroscedastic inducing-point system of the weights (`C01.dtc_percell_weights_solve`) with the stated noise as
+    right-hand side:
 
-      `(K̃_uu + K_uf D⁻¹ K_fu) · W = K_uf D^-1/2`,   `D = diag(max(σᵢ², jitter))`.
+      `(K̃_uu + K_uf D⁻¹ K_fu) · W = K_uf D⁻¹ diag(σ)`,   `D = diag(max(σᵢ², jitter))`.
 
-    With `M = (K̃_uu + K_uf D⁻¹ K_fu)⁻¹ K_uf D⁻¹` the linear map from the values to the weights, `W = M D^1/2`, hence
-    `W Wᵀ = M D Mᵀ`: `mean_covariance = J D Jᵀ` with `J = K_*u M` the linear map from the values to the predicted mean. -/
+    With `M = (K̃_uu + K_uf D⁻¹ K_fu)⁻¹ K_uf D⁻¹` the linear map from the values to the weights, `W = M diag(σ)`, hence
+    `W Wᵀ = M diag(σ²) Mᵀ`: `mean_covariance = J diag(σ²) Jᵀ` with `J = K_*u M` the linear map from the values to the predicted
+    mean — the STATED noise, also for cells whose `σᵢ²` lies below the jitter (the floor `D` only enters the weights). -/
 theorem dtc_percell_W_solves {cov : Cov ℝ} {x : Mat ℝ n d} {xu : Mat ℝ m d} {y : Mat ℝ n c} {mu : ℝ}
     {v : Vector ℝ n} {jitter : ℝ} {s : CondState ℝ m d c}
     (h : lmCondInit cov x xu y mu (.vec v) jitter Option.none false true = .ok s) :
@@ -391,7 +392,8 @@ theorem dtc_percell_W_solves {cov : Cov ℝ} {x : Mat ℝ n d} {xu : Mat ℝ m d
           + toM (gram cov xu x) * Matrix.diagonal (fun i : Fin n => (max (v.nth i * v.nth i) jitter)⁻¹)
               * (toM (gram cov xu x))ᵀ) * toM (Mat.ofFn (n := m) (m := n) fun i k => W.el i k)
         = toM (gram cov xu x)
-            * Matrix.diagonal (fun i : Fin n => 1 / Real.sqrt (max (v.nth i * v.nth i) jitter)) := by
+            * Matrix.diagonal (fun i : Fin n => (max (v.nth i * v.nth i) jitter)⁻¹)
+            * Matrix.diagonal (fun i : Fin n => v.nth i) := by
   obtain ⟨L, hL, hbr⟩ := lmCondInit_ok h
   obtain ⟨hLns, hLLt⟩ := getL_none_LLt hL
   rcases hbr with ⟨hnone, _⟩ | ⟨v', hv', hcore⟩
@@ -402,8 +404,8 @@ theorem dtc_percell_W_solves {cov : Cov ℝ} {x : Mat ℝ n d} {xu : Mat ℝ m d
     obtain ⟨LLB, LB, hLLB, hLB, _, _, _, _, _, _, hunc⟩ := lmCore_ok hcore
     obtain ⟨W, hW, hsL, hsW⟩ := hunc rfl
     obtain ⟨F, hF, hFr, hWc, hWeq⟩ := lmUnc_spec hW
-    -- the factor is the unit factor of the whitened problem
-    have hFe : F = ⟨n, n, Mat.ofFn fun i k => if i = k then (1 : ℝ) else 0⟩ := by
+    -- the factor is the stated noise in whitened units, diag(σᵢ · scaleᵢ)
+    have hFe : F = ⟨n, n, Mat.ofFn fun i k => if i = k then (cellNoise v jitter).nth i else 0⟩ := by
       simp only [sigmaToYCovFactor, sigmaFactor] at hF
       exact (Except.ok.inj hF).symm
     subst hFe
@@ -418,28 +420,26 @@ theorem dtc_percell_W_solves {cov : Cov ℝ} {x : Mat ℝ n d} {xu : Mat ℝ m d
         + (1 : Matrix (Fin m) (Fin m) ℝ) := by
       rw [hLLBe, toM_addEye, matMulT_toM]
     have key := dtc_solve (p := n) hLns hLA (chol?_spec hLB) hLLB' Matrix.isSymm_one
-      (Mat.ofFn (n := n) (m := n) fun i k => if i = k then (1 : ℝ) else 0)
-    have hI : toM (Mat.ofFn (n := n) (m := n) fun i k => if i = k then (1 : ℝ) else 0)
-        = (1 : Matrix (Fin n) (Fin n) ℝ) := by
+      (Mat.ofFn (n := n) (m := n) fun i k => if i = k then (cellNoise v jitter).nth i else 0)
+    have hT : toM (Mat.ofFn (n := n) (m := n) fun i k => if i = k then (cellNoise v jitter).nth i else 0)
+        = S * Matrix.diagonal (fun i : Fin n => v.nth i) := by
+      rw [hS, Matrix.diagonal_mul_diagonal]
       ext i k
-      simp only [toM_apply, el_ofFn, i.isLt, k.isLt, and_self, if_true, Matrix.one_apply]
+      simp only [toM_apply, el_ofFn, i.isLt, k.isLt, and_self, if_true, Matrix.diagonal_apply]
       by_cases hik : i = k
-      · subst hik; simp
+      · subst hik
+        simp only [if_true, toV_apply, cellNoise, nth_vecOfFn, i.isLt]
+        ring
       · have : ¬ (i.val = k.val) := fun hh => hik (Fin.ext hh)
         simp [hik, this]
     simp only [AnyMat.el] at hWeq key
-    rw [ofFn_el (Mat.ofFn (n := n) (m := n) fun i k => if i = k then (1 : ℝ) else 0)] at hWeq
-    rw [← hWeq, Matrix.mul_one, hLLt, toM_scaleCols, hI, Matrix.mul_one, ← hS] at key
+    rw [ofFn_el (Mat.ofFn (n := n) (m := n) fun i k => if i = k then (cellNoise v jitter).nth i else 0)] at hWeq
+    rw [← hWeq, Matrix.mul_one, hLLt, toM_scaleCols, hT, ← hS] at key
     have hSS : S * S = Matrix.diagonal (fun i : Fin n => (max (v.nth i * v.nth i) jitter)⁻¹) :=
       cellScale_sq v jitter
     have hSt : Sᵀ = S := Matrix.diagonal_transpose _
-    have hSe : S = Matrix.diagonal (fun i : Fin n => 1 / Real.sqrt (max (v.nth i * v.nth i) jitter)) := by
-      rw [hS]
-      congr 1
-      funext i
-      simp only [toV_apply, cellScale, nth_vecOfFn, i.isLt, if_true, sqrt_real, cellVariance_real]
     refine ⟨L, W, hsL, hsW, hWc, hLLt, ?_⟩
-    rw [← hSS, ← hSe]
+    rw [← hSS]
     calc (toM (gram cov xu xu) + jitter • (1 : Matrix (Fin m) (Fin m) ℝ)
             + toM (gram cov xu x) * (S * S) * (toM (gram cov xu x))ᵀ)
               * toM (Mat.ofFn (n := m) (m := n) fun i k => W.M.el i k)
@@ -447,7 +447,9 @@ theorem dtc_percell_W_solves {cov : Cov ℝ} {x : Mat ℝ n d} {xu : Mat ℝ m d
             + toM (gram cov xu x) * S * (toM (gram cov xu x) * S)ᵀ)
               * toM (Mat.ofFn (n := m) (m := n) fun i k => W.M.el i k) := by
           rw [Matrix.transpose_mul, hSt]; simp only [Matrix.mul_assoc]
-      _ = toM (gram cov xu x) * S := key
+      _ = toM (gram cov xu x) * S * (S * Matrix.diagonal (fun i : Fin n => v.nth i)) := key
+      _ = toM (gram cov xu x) * (S * S) * Matrix.diagonal (fun i : Fin n => v.nth i) := by
+          simp only [Matrix.mul_assoc]
 
 /-- Latent form: `W` solves `Lᵀ W = diag(std)` (the latent posterior standard deviations). -/
 theorem latent_W_solves {cov : Cov ℝ} {xu : Mat ℝ m d} {z : Mat ℝ m c} {mu : ℝ} {nObs : Nat}
